@@ -4,6 +4,7 @@ CONSTANTS
   Chunks = {0, 1, 3}
   MaxSteps = 7
   MaxFile = 6
+  Modes = {1, 2, 3, 4, 5, 6}
   Emit = FALSE
 VIEW view
 INVARIANT FileOK
